@@ -502,14 +502,17 @@ func Exec(in *bufio.Scanner, out *bufio.Writer) {
 		case s.wedged && f[0] != "stop":
 			// the receiver is stuck (possibly holding the muxer lock): nothing else is attempted
 			res = "wedged"
-		case len(f) == 2 && f[0] == "raw":
+		case len(f) == 2 && (f[0] == "raw" || f[0] == "rawnw"):
 			if b, ok := Unhex(f[1]); ok && len(b) <= 65535 {
 				if s.feed(b) {
 					res = "ok"
 					// An initiation frame starts the tube's initiate goroutine.  hop-go has a race
 					// here (a FIN processed before that goroutine runs leaves the tube without a
-					// running sender); the harness does not race with it: it waits for the goroutine.
-					if len(b) >= 2 && b[1]&3 != 0 {
+					// running sender); `raw` does not race with it: it waits for the goroutine.
+					// `rawnw` does not wait: the next datagram may overtake that goroutine (what a
+					// peer that sends REQ and FIN back to back achieves); only what does not depend on
+					// the sender - states, reads, Stop returning - is asked about afterwards.
+					if f[0] == "raw" && len(b) >= 2 && b[1]&3 != 0 {
 						dl := time.Now().Add(2 * time.Second)
 						for !s.mux.VerifInitSettled(b[1]&4 != 0, b[0]) && time.Now().Before(dl) {
 							time.Sleep(50 * time.Microsecond)
@@ -621,7 +624,23 @@ func Exec(in *bufio.Scanner, out *bufio.Writer) {
 					res = "1"
 				}
 			}
-		case len(f) == 1 && f[0] == "stop":
+		case len(f) == 1 && f[0] == "stop", len(f) == 2 && f[0] == "stopfeed":
+			if f[0] == "stopfeed" {
+				// Stop with a datagram from the peer arriving at a chosen moment: after Stop has closed
+				// the muxer's send queues and before it closes the transport (the receiver still runs)
+				b, ok := Unhex(f[1])
+				if !ok || len(b) > 65535 {
+					break
+				}
+				var once sync.Once
+				conn := s.conn
+				tubes.SetVerifYield(func(site string) {
+					if site == "Muxer.Stop.queuesClosed" {
+						once.Do(func() { conn.Feed(b) })
+					}
+				})
+				defer tubes.SetVerifYield(nil)
+			}
 			done := make(chan struct{})
 			go func() { s.mux.Stop(); close(done) }()
 			wd := StopWatchdog
